@@ -362,17 +362,78 @@ func C16(c *core.Ctx) {
 	if applied == 0 {
 		c.Broken("no mutation could be applied (vacuous)")
 	}
-	if c.Tier == "thorough" {
-		c16Big(c)
+	c16Big(c)
+}
+
+// eofFS serves one large file whose final Read returns the last bytes TOGETHER with io.EOF
+// (as the library's own ext4 and iso9660 handles do) - both conventions are legal.
+type eofFS struct {
+	name string
+	data []byte
+}
+type eofFile struct {
+	fs  *eofFS
+	pos int
+}
+type eofInfo struct {
+	name string
+	size int64
+	dir  bool
+}
+
+func (i eofInfo) Name() string       { return i.name }
+func (i eofInfo) Size() int64        { return i.size }
+func (i eofInfo) Mode() iofs.FileMode {
+	if i.dir {
+		return iofs.ModeDir | 0o755
 	}
+	return 0o644
+}
+func (i eofInfo) ModTime() time.Time { return time.Unix(1700000000, 0) }
+func (i eofInfo) IsDir() bool        { return i.dir }
+func (i eofInfo) Sys() any           { return nil }
+func (i eofInfo) Type() iofs.FileMode { return i.Mode().Type() }
+func (i eofInfo) Info() (iofs.FileInfo, error) { return i, nil }
+
+type eofDir struct{ fs *eofFS }
+
+func (d eofDir) Stat() (iofs.FileInfo, error) { return eofInfo{".", 0, true}, nil }
+func (d eofDir) Read([]byte) (int, error)     { return 0, fmt.Errorf("is a directory") }
+func (d eofDir) Close() error                 { return nil }
+func (d eofDir) ReadDir(n int) ([]iofs.DirEntry, error) {
+	return []iofs.DirEntry{eofInfo{d.fs.name, int64(len(d.fs.data)), false}}, nil
+}
+func (f *eofFS) Open(name string) (iofs.File, error) {
+	if name == "." {
+		return eofDir{f}, nil
+	}
+	if name != f.name {
+		return nil, iofs.ErrNotExist
+	}
+	return &eofFile{fs: f}, nil
+}
+func (f *eofFile) Stat() (iofs.FileInfo, error) { return eofInfo{f.fs.name, int64(len(f.fs.data)), false}, nil }
+func (f *eofFile) Close() error                 { return nil }
+func (f *eofFile) Read(p []byte) (int, error) {
+	n := copy(p, f.fs.data[f.pos:])
+	f.pos += n
+	if f.pos >= len(f.fs.data) {
+		return n, io.EOF // final bytes and EOF in one call
+	}
+	return n, nil
 }
 
 // c16Big: one file one byte over the 64 MiB streaming threshold, generated on the fly.
 func c16Big(c *core.Ctx) {
 	n := 64<<20 + 1
 	data := fsx.Content(9, n)
-	src := fstest.MapFS{"big.bin": &fstest.MapFile{Data: data}, "small.txt": &fstest.MapFile{Data: []byte("x")}}
-	for _, kind := range []string{"fat32", "ext4"} {
+	srcs := map[string]iofs.FS{"mapfs": fstest.MapFS{"big.bin": &fstest.MapFile{Data: data}, "small.txt": &fstest.MapFile{Data: []byte("x")}}, "eof-with-data": &eofFS{"big.bin", data}}
+	kinds := []string{"fat32", "ext4"}
+	if c.Tier != "thorough" {
+		kinds = []string{"fat32"}
+	}
+	for sname, src := range srcs {
+	for _, kind := range kinds {
 		dv, err := fsx.CreateMutable(kind, fsx.Opt{Size: 200 << 20})
 		if err != nil {
 			c.Broken("c16Big %s: %v", kind, err)
@@ -392,10 +453,11 @@ func c16Big(c *core.Ctx) {
 			}
 		}
 		c.AddEval(1)
-		c.Distinct("big-" + kind)
+		c.Distinct("big-" + sname + "-" + kind)
 		if !ok {
-			c.Fail([]string{"sync-streaming-copy-over-64MiB-" + kind}, fmt.Sprintf("copy of a 64 MiB + 1 byte file to %s: panic=%q err=%v or content differs", kind, p, cerr), map[string]any{"dst": kind, "size": n})
+			c.Fail([]string{"sync-streaming-copy-over-64MiB-" + sname + "-" + kind}, fmt.Sprintf("copy of a 64 MiB + 1 byte file from %s to %s: panic=%q err=%v or content differs", sname, kind, p, cerr), map[string]any{"src": sname, "dst": kind, "size": n})
 		}
+	}
 	}
 }
 
